@@ -175,6 +175,9 @@ def run(ck):
                           "under the caller's toWriteLock" if ok else "used after lock.unlock() / without the lock")
     ck.require(nacc >= 8, "only %d accesses to toWrite analysed" % nacc)
 
+    lib.guard_release_rule(ck, "C06-R11", lambda f_: f_.file.endswith(("/common/transport.cc", "/pistache/transport.h")),
+                           "toWriteLock is always given back (a drain pass that keeps it blocks every later write of the worker)", 3)
+
     # ---------------- R3 ----------------
     f = lib.single(prog, T + "asyncWriteImpl")
     dd = [d for d in f.events("decl") if d.get("var") and "Deferred" in d.get("type", "")]
